@@ -15,6 +15,8 @@ mod metrics;
 mod ordered_commit;
 #[cfg(test)]
 mod tests;
+#[cfg(feature = "verif")]
+pub(crate) mod verif_api;
 mod wait;
 
 use crate::{
